@@ -739,6 +739,10 @@ class _Gen:
                         allnames.append(exported)
                         s.moved[uid] = (p.mid, exported)
                         self.reexported.add(uid)
+                        if r.random() < .2:
+                            # the re-exporting module binds the name itself before the import replaces it (a placeholder, a fallback)
+                            items.append(Item(kind='raw', text=r.choice([f'{exported} = None', f'def {exported}(*args):\n    raise NotImplementedError'])))
+                            s.notes['placeholder_before_reexport'] = True
                 items.append(Item(kind='import', text=f'from {path} import {", ".join(parts)}', binds=binds))
         if f.pkg_imports and not f.reexports:
             for src in r.sample(subtree, min(len(subtree), r.randint(0, 2))):
